@@ -178,16 +178,27 @@ func Open(fileName string, opts *Options) (*AppendableFile, error) {
 
 		fileBaseOffset = int64(4 + len(mBs))
 	} else {
+		fi, err := f.Stat()
+		if err != nil {
+			return nil, err
+		}
+
 		r := bufio.NewReader(f)
 
 		mLenBs := make([]byte, 4)
-		_, err := r.Read(mLenBs)
+		_, err = io.ReadFull(r, mLenBs)
 		if err != nil {
 			return nil, ErrCorruptedMetadata
 		}
 
-		mBs := make([]byte, binary.BigEndian.Uint32(mLenBs))
-		_, err = r.Read(mBs)
+		// the metadata block cannot be larger than the file that holds it
+		mLen := int64(binary.BigEndian.Uint32(mLenBs))
+		if mLen > fi.Size()-4 {
+			return nil, ErrCorruptedMetadata
+		}
+
+		mBs := make([]byte, mLen)
+		_, err = io.ReadFull(r, mBs)
 		if err != nil {
 			return nil, ErrCorruptedMetadata
 		}
